@@ -473,6 +473,11 @@ impl StreamInfo {
         channels: usize,
         bits_per_sample: usize,
     ) -> Result<Self, VerifyError> {
+        // verify the arguments before narrowing them: `channels = 257` must not
+        // be accepted as `1`.
+        verify_range!("sample_rate", sample_rate, ..=96_000)?;
+        verify_range!("channels", channels, 1..=MAX_CHANNELS)?;
+        verify_bps!("bits_per_sample", bits_per_sample)?;
         let ret = Self {
             min_block_size: u16::MAX,
             max_block_size: 0,
